@@ -66,7 +66,7 @@ CLAIMED.update({
     "C10": ("DESIGN.md 6/C10", "Lean 4 theorem C10_holds: members, minimality, completeness of the returned list, refusal "
             "exactly for incomplete data under a non-unifying scheme.", GEN_NOTE, TECH),
     "C11": ("DESIGN.md 6/C11", "Lean 4 theorems for EVERY pivot script: count formulas = definition, per-step placement, "
-            "pivot independence under coherence, unanimous datasets returned unchanged, cheapest placement independent of the order of the rankings (C11_whereSpec_perm); tied with all pivot scripts "
+            "pivot independence under coherence, unanimous datasets returned unchanged, cheapest placement independent of the order of the rankings and of element names (C11_whereSpec_perm, C11_whereSpec_rename); tied with all pivot scripts "
             "enumerated on small universes.", GEN_NOTE, TECH),
     "C12": ("DESIGN.md 6/C12", "Lean 4 theorems C12_holds / C12_perm: order by mean positional score per variant and family, "
             "refusal rule, independence of ranking order.", GEN_NOTE + " Mean comparison by cross-multiplication.", TECH),
